@@ -51,7 +51,19 @@ def run(ctx):
             open(path, 'w').write(body)
         targets.append('c04_part%02d.nsan' % k)
     exes = ctx.build(targets, timeout=3000)
-    eqexe, = ctx.build(['c04_imgeq.nsan'])
+    # image == / != of real image types: if the tree no longer instantiates it, that is an observed outcome (P_Total), not an infrastructure error
+    try:
+        eqexe, = ctx.build(['c04_imgeq.nsan'])
+    except vlib.Infra:
+        ok, out = ctx.try_compile('p_imgeq', open(os.path.join(vlib.HARNESS, 'c04_imgeq.cpp')).read().replace('"lib/', '"' + vlib.HARNESS + '/lib/'))
+        if ok:
+            raise
+        errs = [l for l in out.split('\n') if 'error' in l]
+        with open(ptrace, 'r+') as f:
+            lines = [l for l in f.read().split('\n') if l.strip()]
+            lines.insert(len(lines) - 1, json.dumps({'e': 'Compiles', 'case': 'image==image/g3', 'group': 3, 'ok': False, 'msg': (errs[0] if errs else out[-200:])[-220:]}))
+            f.seek(0); f.truncate(); f.write('\n'.join(lines) + '\n')
+        eqexe = None
     ctx.mc('MC_PixelAlgo', 'MC_PixelAlgo_%s.cfg' % ctx.tier)
     traces = [ptrace]
     t0 = __import__('time').time()
@@ -62,7 +74,8 @@ def run(ctx):
     with ThreadPoolExecutor(max_workers=vlib.NCPU) as ex:
         traces += list(ex.map(rec, range(len(exes))))
     vlib.log('[record] %d driver parts, %.1f MB, %.1fs' % (len(exes), sum(os.path.getsize(t) for t in traces) / 1e6, __import__('time').time() - t0))
-    traces += ctx.record(eqexe, [], shards=2, name='trace-imgeq')
+    if eqexe:
+        traces += ctx.record(eqexe, [], shards=2, name='trace-imgeq')
     ctx.validate('Trace_PixelAlgo', traces, timeout=3000)
     def k(ev):
         if ev['e'] == 'Algo' and ev['w'] * ev['h'] > 0:
